@@ -184,6 +184,17 @@ Section Forest.
       + right. exists c. split; [simpl; right; rewrite E; exact Hc|]. split; assumption.
   Qed.
 
+  (* ... and every node of the path satisfying P is at or above it *)
+  Lemma find_up_path_lowest (P : nat -> bool) f b m c :
+    find P (up_path p f b) = Some m -> In c (up_path p f b) -> P c = true -> aos p c m.
+  Proof.
+    revert b. induction f as [|f IH]; intros b H Hc HP; simpl in H; [discriminate|].
+    destruct (P b) eqn:EP.
+    - inversion H; subst. eapply up_path_sound; eauto.
+    - simpl in Hc. destruct Hc as [<- | Hc]; [congruence|].
+      destruct (p b) as [v|] eqn:E; [|discriminate]. eapply IH; eauto.
+  Qed.
+
   Lemma anc_or_self_iff f a b : depth b < f -> (anc_or_self p f a b = true <-> aos p a b).
   Proof.
     intros Hd. unfold anc_or_self. rewrite mem_In. split.
